@@ -357,5 +357,5 @@ pub mod __internal__ {
 pub mod __verif {
     pub use crate::ohkami::routing::{HandlerSet, ByAnother, Dir, Routing};
     #[cfg(feature="__rt_native__")]
-    pub use crate::ohkami::{__VerifCtrlC, __VERIF_SCHED};
+    pub use crate::ohkami::{__VerifCtrlC, __VerifWaitGroup, __VERIF_SCHED};
 }
